@@ -82,6 +82,16 @@ class CallMixin(object):
             return ("lastrowid", base[1])
         if k == "dbcur" and attr == "lastrowid" and (base, "#result") in state.heap:
             return ("lastrowid", state.heap[(base, "#result")][1])
+        if k == "exc" and isinstance(base[1], str):
+            # a class-level attribute of the exception's class (or of a base)
+            c, hops = base[1], 0
+            while c in self.repo.classes and hops < 6:
+                m0, cd0 = self.repo.classes[c]
+                if attr in cd0["attrs"]:
+                    return self.fold(cd0["attrs"][attr], m0)
+                bs = cd0["bases"]
+                c = bs[0].split(".")[-1] if bs else None
+                hops += 1
         if k == "nt":
             for (f, v) in base[2]:
                 if f == attr:
@@ -844,8 +854,17 @@ class CallMixin(object):
                     vals[f] = self.fold(d, mod)
             return [(state, ("nt", cls, tuple((f, vals.get(f, ("unknown", "nt-missing")))
                                               for (f, _) in fields)))]
+        def _is_exc_class(c, hops=0):
+            if c in ("Exception", "BaseException") or c.endswith("Error") and \
+                    c not in self.repo.classes:
+                return True
+            ent0 = self.repo.classes.get(c)
+            if ent0 is None or hops > 6:
+                return False
+            return any(_is_exc_class(b.split(".")[-1], hops + 1) for b in ent0[1]["bases"])
         if any(b in ("Exception",) or b.endswith("Error") for b in bases) or \
-                self.exc_matches(cls, ("Exception",)) and "__init__" not in cd["methods"]:
+                _is_exc_class(cls):
+            # an exception object (its __init__, if any, only records details)
             return [(state, ("exc", cls, self.site(frame, node), tuple(args)))]
         if self.exc_matches(cls, ("Exception",)) and cd["bases"] and \
                 cd["bases"][0].split(".")[-1] in ("Exception",):
